@@ -959,7 +959,14 @@ func (rl *Shell) killRegion() {
 		return
 	}
 
+	// The point ends where the region was, whichever end of it it was on.
+	bpos, _ := rl.selection.Pos()
+
 	rl.Buffers.Write([]rune(rl.selection.Cut())...)
+
+	if bpos >= 0 {
+		rl.cursor.Set(bpos)
+	}
 }
 
 // Copy the text in the region to the kill buffer.
